@@ -64,10 +64,10 @@ for _t in ['string', 'normalizedString', 'token', 'language', 'NMTOKEN', 'Name',
 TIERS = {
     # lex: every literal, no casts (Targets empty: only ToStr edges leave the constructed values)
     # cast: shorter literals, full cast fan-out from the constructed values, primitive targets below
-    'quick': [('lex3', dict(MaxLen=3, Depth=4, Fams=set(ALL_FAMS), Targets=set(), Versions={'1.0', '1.1'}, Grid='small')),
-              ('cast2', dict(MaxLen=2, Depth=5, Fams=set(ALL_FAMS), Targets=set(ALL_TYPES), Versions={'1.0', '1.1'}, Grid='small'))],
-    'thorough': [('lex4', dict(MaxLen=4, Depth=4, Fams=set(ALL_FAMS), Targets=set(), Versions={'1.0', '1.1'}, Grid='full')),
-                 ('cast3', dict(MaxLen=3, Depth=5, Fams=set(ALL_FAMS), Targets=set(ALL_TYPES), Versions={'1.0', '1.1'}, Grid='small'))],
+    'quick': [('lex3', dict(MaxLen=3, MaxCasts=1, Fams=set(ALL_FAMS), Targets=set(), Versions={'1.0', '1.1'}, Grid='small')),
+              ('cast2', dict(MaxLen=2, MaxCasts=2, Fams=set(ALL_FAMS), Targets=set(ALL_TYPES), Versions={'1.0', '1.1'}, Grid='small'))],
+    'thorough': [('lex4', dict(MaxLen=4, MaxCasts=1, Fams=set(ALL_FAMS), Targets=set(), Versions={'1.0', '1.1'}, Grid='full')),
+                 ('cast3', dict(MaxLen=3, MaxCasts=2, Fams=set(ALL_FAMS), Targets=set(ALL_TYPES), Versions={'1.0', '1.1'}, Grid='small'))],
 }
 PARSERS = {'quick': ['3.1'], 'thorough': ['2.0', '3.1']}      # XPath parser versions (each x XSD 1.0 / 1.1)
 NS = {'a': 'urn:a'}
@@ -544,6 +544,8 @@ def canon_class(exp) -> str:
     if k == 'dur':
         return 'zero' if (exp['mo'] == 0 and exp['se'] == 0 and not exp['fr']) else 'nonzero'
     if k == 'dt':
+        if exp['y'] < -9999:
+            return 'year_lt_-9999'
         return 'tz' if exp['tz'] != NOTZ else 'notz'
     return '-'
 
@@ -576,7 +578,7 @@ def construct_worker(job):
             if outcome.startswith('wrong_class:'):
                 f.update(outcome='wrong_class', obs_class=outcome.split(':')[1])
             f.update(extra)
-            fails.append((f, dict(kind='construct', type=T, tokens=list(tokens), xsd=ver, path=path, **extra),
+            fails.append((f, dict(kind='construct', type=T, tokens=list(tokens), xsd=ver, path=path, canon=canon, **extra),
                           exp, observed))
 
         # ---- Python level (an unbound QName prefix reaches the adapter as "no namespace": ValueError)
@@ -727,43 +729,62 @@ def chain_worker(job):
 
 
 def replay(rec: dict) -> int:
+    """re-run one recorded case on the working tree and judge it against the recorded expected state"""
     core.setup_repo_path()
+    from elementpath.datatypes import UntypedAtomic
     case, exp = rec['case'], rec['expected']
     print('case     :', case)
     print('expected :', exp)
-    bad = False
+    out = None
     if case['kind'] == 'construct':
         T, text, ver, path = case['type'], text_of(case['tokens']), case['xsd'], case['path']
-        from elementpath.datatypes import UntypedAtomic
         pv = case.get('parser', '3.1')
+        canon = case.get('canon')
+        valid = exp['k'] != 'err'
         exprs = {'xp_ctor': (f'xs:{T}($s)', 's'), 'xp_ctor_u': (f'xs:{T}($u)', 'u'), 'xp_cast': (f'$s cast as xs:{T}', 's'),
                  'xp_cast_u': (f'$u cast as xs:{T}', 'u'), 'xp_castable': (f'$s castable as xs:{T}', 's'),
                  'xp_castable_u': (f'$u castable as xs:{T}', 'u'), 'xp_string': (f'string(xs:{T}($s))', 's')}
-        if path == 'py_ctor' or path == 'py_str':
+        if path == 'py_ctor':
             obs = py_construct(T, text, ver)
-            if obs[0] == 'val' and path == 'py_str':
-                obs = ('val', str(obs[1]))
+            out = judge(exp, obs, ver, False)
+        elif path == 'py_str':
+            obs = py_construct(T, text, ver)
+            obs = ('val', str(obs[1])) if obs[0] == 'val' else obs
+            out = None if obs == ('val', canon) else 'wrong_canonical'
         elif path == 'py_is_valid':
             obs = py_is_valid(T, text, ver)
+            out = None if obs == ('val', valid or exp.get('code') == 'FONS0004') else 'is_valid'
         else:
             e, var = exprs[path]
             obs = xp_eval(e, pv, ver, {var: text if var == 's' else UntypedAtomic(text)})
             print('expr     :', e, 'with $' + var, '=', repr(text), 'parser', pv, 'xsd', ver)
-        print('observed :', obs, ' (previously', rec['observed'], ')')
-        bad = repr(core.jsonable(obs)) == repr(rec['observed']) or obs == rec['observed']
+            if path.startswith('xp_castable'):
+                out = None if obs == ('val', valid) else 'castable'
+            elif path == 'xp_string':
+                out = None if obs == ('val', canon) else 'wrong_canonical'
+            else:
+                out = judge(exp, obs, ver, True)
+        print('observed :', obs)
     elif case['kind'] == 'chain':
         obs = xp_eval(case['expr'], case['parser'], case['xsd'], {'s': case['s']})
-        print('expr     :', case['expr'], 'with $s =', repr(case['s']))
-        print('observed :', obs, ' (previously', rec['observed'], ')')
-        bad = repr(core.jsonable(obs)) == repr(rec['observed'])
+        print('expr     :', case['expr'], 'with $s =', repr(case['s']), 'parser', case['parser'], 'xsd', case['xsd'])
+        print('observed :', obs)
+        if case['action'] == 'ToStr':
+            out = None if obs == ('val', text_of(exp['s'])) and type(obs[1]) is str else 'wrong_canonical'
+        elif case['action'] == 'Castable':
+            out = None if obs == ('val', exp['b']) else 'castable'
+        else:
+            out = judge(exp, obs, case['xsd'], True)
     else:
         T, ver = case['type'], case['xsd']
         a, b = py_construct(T, text_of(case['a']), ver), py_construct(T, text_of(case['b']), ver)
-        print('observed :', a, b, a[1] == b[1], hash(a[1]) == hash(b[1]))
-        bad = not (a[1] == b[1] and hash(a[1]) == hash(b[1]))
-    if bad:
-        print('VIOLATION property=C10 replay=(replayed): still disagrees with the specification')
+        print('observed :', a, b)
+        if not (a[0] == b[0] == 'val' and a[1] == b[1] and hash(a[1]) == hash(b[1])):
+            out = 'unequal or different hashes'
+    if out is not None:
+        print(f'VIOLATION property=C10 replay=(replayed) outcome={out}')
         return 1
+    print('agrees with the specification now')
     return 0
 
 
@@ -789,7 +810,7 @@ def run(chk: core.Check) -> None:
         'double/float values with more than 15 significant digits and xs:float -> xs:double widening are compared approximately and are terminal; xs:float subnormals not enumerated',
         'error codes compared only between FORG0001 and FOCA0002; otherwise only value vs ElementPathError',
     ]
-    total_states = 0
+    total_states = 0     # states of the dumped graphs (= TLC distinct states)
     for name, consts in TIERS[chk.tier]:
         wd = os.path.join(chk.scratch, name)
         dot = os.path.join(wd, 'g.dot')
@@ -797,10 +818,15 @@ def run(chk: core.Check) -> None:
         r = tla.require_ok(tla.run_tlc('CastChain', cfg, wd, dump_dot=dot, workers=int(os.environ.get('VERIF_TLC_WORKERS', '16'))),
                            f'CastChain/{name}', min_distinct=100)
         chk.model(f'CastChain/{name}', r)
+        chk.coverage.setdefault('constants', {})[name] = core.jsonable(consts)
         g = tla.load_dot(dot)
         os.remove(dot)
-        out = g.out()
         total_states += len(g.states)
+        # anti-vacuity: every action fired; every type has accepted and (unless it accepts every string) rejected literals
+        fired = {a for _, _, a, _ in g.edges}
+        need = {'Pick', 'Construct', 'ToStr'} | ({'Cast', 'Castable'} if consts['Targets'] else set())
+        if need - fired:
+            raise tla.MachineryError(f'CastChain/{name}: actions never fired: {sorted(need - fired)}')
         # canonical string of every value state = destination of its ToStr edge
         canon_of = {}
         for s, d, a, args in g.edges:
@@ -819,6 +845,15 @@ def run(chk: core.Check) -> None:
             exp = g.states[d]['val']
             jobs.append((i, T, tokens, ver, exp, canon_of.get(d), facet_of(T, tokens, exp, (ver, tokens) in int_valid)))
         n_cons = len(jobs)
+        seen_ok = {(j[1], j[3]) for j in jobs if j[4]['k'] != 'err'}
+        seen_bad = {(j[1], j[3]) for j in jobs if j[4]['k'] == 'err'}
+        for T in sorted(t for f in consts['Fams'] for t in FAM_TYPES[f]):
+            for ver in sorted(consts['Versions']):
+                if T == 'dateTimeStamp' and ver == '1.0':
+                    continue
+                if (T, ver) not in seen_ok or ((T, ver) not in seen_bad and T not in
+                                               ('string', 'normalizedString', 'token', 'untypedAtomic', 'anyURI')):
+                    raise tla.MachineryError(f'CastChain/{name}: vacuous literal set for xs:{T} under XSD {ver}')
         chk.add('transitions', len(g.edges))
         chk.add('traces_validated_against_impl', n_cons)
         nontrivial = {(j[1], j[3], j[4]) for j in jobs}       # distinct (type, version, resulting value/error)
@@ -858,6 +893,19 @@ def run(chk: core.Check) -> None:
                 if passed.get(i, ({}, None))[0].get(pv) and (d, pv) not in hist:
                     hist[(d, pv)] = (f'xs:{T}($s)', text_of(tokens))
         chain_edges = [(s, d, a, args) for s, d, a, args in g.edges if a not in ('Construct', 'Pick')]
+        # coverage of the casting table: cells (source primitive, target primitive) and how many have >= 2 source values
+        cells = {}
+        for s, d, a, args in chain_edges:
+            if a == 'Cast':
+                c = cells.setdefault((PRIM[g.states[s]['val']['t']], PRIM[args[0]]), [set(), set()])
+                c[0].add(s)
+                c[1].add(g.states[d]['val']['k'] == 'err')
+        if cells:
+            chk.coverage['cast_cells'] = len(cells)
+            chk.coverage['cast_cells_two_values'] = sum(1 for c in cells.values() if len(c[0]) >= 2)
+            chk.coverage['cast_cells_both_outcomes'] = sum(1 for c in cells.values() if len(c[1]) == 2)
+            if len(cells) < 22 * 22 and set(consts['Fams']) == set(ALL_FAMS):
+                raise tla.MachineryError(f'CastChain/{name}: only {len(cells)} of 484 casting-table cells exercised')
         by_src = {}
         for e in chain_edges:
             by_src.setdefault(e[0], []).append(e)
